@@ -473,9 +473,74 @@ def read_replay_header(path):
     return hdr
 
 
+def static_storage_check(prop, job, workdir):
+    """Structural obligation decided from the goto symbol table (front end of the same tool
+    chain): every object of static storage duration defined in the repository's POSIX
+    sources must be const or thread-local. Returns obligations and violations."""
+    src = os.path.join(workdir, "sym.c")
+    open(src, "w").write('#include "reproc_all.h"\n#include "vp_nocb.h"\nvoid harness(void) {}\n')
+    goto = os.path.join(workdir, "sym.goto")
+    fl = list(BASE_CFLAGS) + ["-DVP_CBMC", "-DVP_ON_%s=1" % prop, "-include", os.path.join(VERIF, "model", "vp_shim.h")]
+    rc, so, se, _ = sh(["goto-cc", "-c", src, "-o", goto] + fl, timeout=300)
+    if rc != 0:
+        raise Inconclusive("goto-cc failed for the symbol-table unit:\n" + se[-2000:])
+    rc, so, se, _ = sh(["goto-instrument", "--show-symbol-table", "--json-ui", goto], timeout=300)
+    try:
+        data = json.loads(so)
+    except ValueError:
+        raise Inconclusive("cannot read the goto symbol table")
+    table = {}
+    for it in data:
+        if isinstance(it, dict) and "symbolTable" in it:
+            table = it["symbolTable"]
+    obligations, violations = [], []
+    for name, sym in sorted(table.items()):
+        loc = (sym.get("location") or {}).get("file", "")
+        if not loc.startswith(REPO) or sym.get("isType") or not sym.get("isStaticLifetime"):
+            continue
+        ty = sym.get("type") or {}
+        if ty.get("id") == "code" or sym.get("isMacro") or sym.get("isExtern"):
+            continue  # extern declarations (e.g. libc's environ) are not the library's objects
+        const = "#constant" in (ty.get("namedSub") or {}) or str(sym.get("prettyType", "")).startswith("const ")
+        ok = const or bool(sym.get("isThreadLocal"))
+        desc = "%s: static-storage object %s (%s) is const or thread-local" % (
+            prop, name, os.path.basename(loc))
+        obligations.append({"property": "symtab." + name, "description": desc, "kind": "tagged",
+                            "status": "SUCCESS" if ok else "FAILURE"})
+        if not ok:
+            rp = os.path.join(VERIF, "replays", "%s-static-%s.replay" % (prop, re.sub(r"\W", "_", name)))
+            os.makedirs(os.path.dirname(rp), exist_ok=True)
+            open(rp, "w").write("# structural finding from the goto symbol table\n# property=%s\n# harness=%s\n"
+                                "# variant=%s\n# assertion=%s\n# symbol=%s file=%s line=%s type=%s\n" % (
+                                    prop, job.harness, job.variant, desc, name, loc,
+                                    (sym.get("location") or {}).get("line"), sym.get("prettyType")))
+            violations.append({"property": "symtab." + name, "kind": "tagged", "confirmed": True, "replay": rp,
+                               "description": "%s: mutable process-wide static object %s in %s: shared between "
+                                              "threads" % (prop, name, os.path.basename(loc)), "choices": []})
+    return obligations, violations
+
+
 def run_job(prop, job, run_dir, want_functions=True):
     """Returns a dict with verdict info for one harness instance."""
     t0 = time.time()
+    if getattr(job, "structural", False):
+        workdir = os.path.join(run_dir, re.sub(r"[^\w.@-]", "_", job.name))
+        os.makedirs(workdir, exist_ok=True)
+        info = {"harness": job.name, "bounds": dict(job.bounds), "status": "ok", "violations": [], "known": [],
+                "notes": [], "obligations": [], "covers": [], "stats": {}, "functions": []}
+        try:
+            info["obligations"], info["violations"] = static_storage_check(prop, job, workdir)
+            info["covers"] = [{"goal": "at least one static-storage object found in repository code",
+                               "reached": len(info["obligations"]) > 0}]
+            if not info["obligations"]:
+                info["status"] = "inconclusive"
+                info["notes"].append("VACUOUS: symbol table lists no static-storage object of the repository")
+        except Inconclusive as e:
+            info["status"] = "inconclusive"
+            info["notes"].append(str(e))
+        info["wall_s"] = round(time.time() - t0, 2)
+        shutil.rmtree(workdir, ignore_errors=True)
+        return info
     workdir = os.path.join(run_dir, re.sub(r"[^\w.@-]", "_", job.name))
     os.makedirs(workdir, exist_ok=True)
     info = {"harness": job.name, "bounds": dict(job.bounds, unwind=job.unwind,
